@@ -11,6 +11,15 @@ claimed = {
  'C01': ("call-graph ownership (who-may-call) + CFG typestate automaton (Flush->Process->Reset) + field-origin analysis of Reset + table extraction, over go/ssa",
          "Structural necessary conditions decided on every path of the named functions: the aggregator is driven only by its shard worker; one process command does Flush, Process, Reset in order, each once; Reset carries identity and no data; backends do not keep the map asynchronously; receive formulas; routing partition; four-type exhaustiveness. The interleaving behaviour itself is not decided.",
          "Go channel/select semantics; go/types + go/ssa; rules in checker/c01.go; a passing check means no listed structural clause is broken, not that conservation holds."),
+ 'C02': ("exhaustive byte decision tables (abstract evaluation of each comparison tree over all 256 byte values) + guard dominance + state-transition relation extraction + per-line reinitialisation table",
+         "The lexer's dispatch tables (name normalisation, type, attribute introducers, event keys, priority/alert words) equal the documented grammar for every byte value; name/value/rate stores are dominated by their well-formedness guards (non-empty name, ParseFloat ok, not NaN, rate > 0 and finite); tags are non-empty and delimiter-free by construction; accept exits and the transition relation are the documented chain; Run re-initialises every per-line field.",
+         "does not decide acceptance of exactly the grammar on all strings (offset arithmetic); documented tables are frozen in checker/c02.go; anchors by state-function name."),
+ 'C05': ("type-reachability (no []byte/unsafe reachable from outputs) + ordering/dominance on the parser loop + value provenance of the tag buffer + constructor copy rule",
+         "The no-aliasing clause is decided for every input by types (no reachable type can hold a byte buffer, no unsafe); tag buffers never alias earlier lines' tags; New* constructors copy tags; the datagram buffer is released after parsing; one parse per line with bad-line accounting; timestamps/sources/host-tag handling; equal-timestamp gauge lines resolve to the later line.",
+         "'datagram = concatenation of its lines' as an equation is not decided; go/types."),
+ 'C14': ("table extraction from composite literals and switches on both sides + inverse/bijection comparison + protobuf struct-tag coverage + guard dominance in the HTTP handlers + pooled-buffer escape rule",
+         "Encoder and decoder field tables are mutual inverses for the four metric types and events; every protobuf field is written and read; priority/alert switches are inverse bijections on all declared constants; each compressor's Content-Encoding selects the matching decompressor; dispatch is dominated by successful read/decompress/unmarshal and every handler path writes exactly one status; no request body aliases a pooled buffer.",
+         "protobuf, zlib and lz4 round-trip behaviour is trusted."),
  'C06': ("purity (effect) analysis of Bucket + per-closure exactly-once store counting on the CFG + value-identity of the dispatch index in SSA",
          "Bucket reads only its arguments and calls only adler32.Checksum; each Split/SplitByTags closure stores the element exactly once on every path under unchanged keys into the same-typed field of maps[Bucket(name,key,count)]; split i is sent to worker i and both are sized by one number. For every batch and shard count by construction of the code shape.",
          "go/ssa; adler32 determinism; the rule recognises the if/else insert idiom used today and fails closed on other shapes."),
